@@ -333,7 +333,7 @@ func vh_C18_split_attributes() {
 	wantSS := []http.SameSite{0, http.SameSiteLaxMode, http.SameSiteStrictMode, http.SameSiteNoneMode}
 	k := ndChoice("cookie-samesite", len(sameSites))
 	store.Cookie.SameSite = sameSites[k]
-	n := 6000
+	n := 4200
 	value := []byte(strings.Repeat("A", n))
 	now := time.Unix(1700000000, 0)
 	signed, _ := encryption.SignedValue(vSecret, name, value, now)
